@@ -25,6 +25,7 @@ struct VMBase
   std::unordered_map<int64_t, int64_t> fault_bits; // statement id -> fault bits (registered at invoke)
   std::vector<int> sim_to_plan;                    // sim thread id -> plan thread (-1 backend)
   bool flush_throw_armed = false;
+  bool suppress_formatter = false; // set while the harness computes the expected text with the same formatter
   uint64_t faults_fired[16] = {};
   std::string scratch_dir;
   int next_dyn_id = 0;
@@ -43,6 +44,11 @@ struct VMBase
 
   Ev& record(int type, int64_t a = 0, int64_t b = 0, int64_t c = 0, int64_t d = 0)
   {
+    if (type == EV_FORMATTER_RAN && suppress_formatter)
+    {
+      static Ev dummy;
+      return dummy;
+    }
     Ev e;
     e.seq = sim::note(static_cast<uint64_t>(type), static_cast<uint64_t>(a));
     e.vt = sim::now_ns();
